@@ -61,8 +61,8 @@ def same(ctx, E, name, a, b, cex, tag=None):
 
     def cex2(E_, neg):
         reps = cex(E_, neg)
-        if reps and E_.check(neg) == z3.sat:
-            m = E_.model()
+        if reps:
+            m = E_.model()  # the model cex() just found
             h = z3.RealVal("1/1000000")
             pin0 = [(EPS, z3.RealVal(0))]
             try:
@@ -99,8 +99,8 @@ def loss_job(job_id, case, B=3, S=2, source_filter=None):
     utils = w.load("rl4co.models.rl.common.utils")
 
     def cexb(E_, neg):
-        if E_.check(neg) == z3.sat:
-            m = E_.model()
+        m = core.find_model(E_, neg)
+        if m is not None:
             return [{"kind": "script", "path": core.ROOT + "/vf/torch_side", "module": "training_side", "func": "run", "model_kind": "plain", "mode": "C16",
                      "params": {"case": case, "B": B, "S": S, "values": {str(d): str(m[d]) for d in m.decls() if d.arity() == 0 and str(d) != "eps!"}}}]
         return []
@@ -111,7 +111,7 @@ def loss_job(job_id, case, B=3, S=2, source_filter=None):
         td = TensorDict({}, batch_size=[B])
         name = f"[{case} B={B}]"
         R, LLv = list(r.a), list(ll.a)
-        if case in ("no", "mean", "exponential", "critic", "rollout_extra", "warmup", "scaled_norm", "scaled_int"):
+        if case in ("no", "mean", "exponential", "critic", "rollout_extra", "warmup", "warmup_done", "scaled_norm", "scaled_int"):
             v = dvec("v", (B,))
 
             class Critic(nnmod.Module):
@@ -135,10 +135,13 @@ def loss_job(job_id, case, B=3, S=2, source_filter=None):
                 model.baseline = bl.NoBaseline()
                 extra = dvec("extra", (B,), tangent=False)
                 batch = TensorDict({"extra": extra}, batch_size=[B])
-            elif case == "warmup":
+            elif case in ("warmup", "warmup_done"):
                 inner = bl.CriticBaseline(Critic())
                 model.baseline = bl.WarmupBaseline(inner, n_epochs=2, warmup_exp_beta=0.8)
                 model.baseline.epoch_callback(None, epoch=0)  # alpha = 1/2
+                if case == "warmup_done":  # training continues past the warm-up: the weight must stay at one (pure inner baseline)
+                    for ep in (1, 2, 3):
+                        model.baseline.epoch_callback(None, epoch=ep)
             vprev = None
             for step in range(steps):
                 rs = dvec(f"r{step}", (B,), tangent=False) if steps > 1 else r
@@ -164,8 +167,8 @@ def loss_job(job_id, case, B=3, S=2, source_filter=None):
                 elif case == "rollout_extra":
                     b0 = list(batch["extra"].a)
                     blloss = 0
-                elif case == "warmup":
-                    half = z3.RealVal("1/2")
+                elif case in ("warmup", "warmup_done"):
+                    half = z3.RealVal("1/2") if case == "warmup" else z3.RealVal(1)
                     wb = _mean(Rs)
                     b0 = [half * strip(v.a[i]) + (1 - half) * wb for i in range(B)]
                     blloss = half * _mean([(v.a[i] - Rs[i]) * (v.a[i] - Rs[i]) for i in range(B)]) + 0
